@@ -98,6 +98,7 @@ type interp struct {
 	lastVals    map[ssa.Value]iv
 	lastValsTop map[ssa.Value]iv
 	allVals     map[ssa.Value]iv
+	liveTop     map[*ssa.BasicBlock]bool // blocks of the outermost evaluated function that the last evaluation could reach
 }
 
 func (it *interp) constIVOf(v ssa.Value) (iv, bool) {
@@ -549,6 +550,7 @@ func (it *interp) evalFunc(fn *ssa.Function, args []iv) (iv, error) {
 	}
 	it.lastVals = vals
 	if it.depth == 1 {
+		it.liveTop = live
 		// values of the top frame and of every function inlined into it
 		if it.allVals == nil {
 			it.allVals = map[ssa.Value]iv{}
@@ -619,6 +621,47 @@ func (it *interp) evalValue(v ssa.Value, depth int) (iv, error) {
 				if gv, ok := it.globals[GlobalName(g)]; ok {
 					return gv, nil
 				}
+			}
+		case *ssa.Parameter:
+			// a parameter of a transparent new helper: the join of the arguments at its call sites
+			if as := helperParamArgs(x); len(as) > 0 {
+				var acc iv
+				for _, a := range as {
+					av, err := it.evalValue(a, depth+1)
+					if err != nil {
+						return iv{}, err
+					}
+					acc = acc.join(av)
+				}
+				return acc, nil
+			}
+		case *ssa.BinOp:
+			// small arithmetic on bounded operands (len(table)-1)
+			if x.Op == token.ADD || x.Op == token.SUB {
+				a, e1 := it.evalValue(x.X, depth+1)
+				b, e2 := it.evalValue(x.Y, depth+1)
+				small := func(i iv) bool {
+					return i.kind == 'i' && i.ilo.IsInt64() && i.ihi.IsInt64() && abs64(i.ilo.Int64()) < 1<<40 && abs64(i.ihi.Int64()) < 1<<40
+				}
+				if e1 == nil && e2 == nil && small(a) && small(b) {
+					if x.Op == token.ADD {
+						return ivInt(new(big.Int).Add(a.ilo, b.ilo), new(big.Int).Add(a.ihi, b.ihi)), nil
+					}
+					return ivInt(new(big.Int).Sub(a.ilo, b.ihi), new(big.Int).Sub(a.ihi, b.ilo)), nil
+				}
+			}
+		}
+		if call, isCall := v.(*ssa.Call); isCall {
+			if b, isB := call.Call.Value.(*ssa.Builtin); isB && b.Name() == "len" && len(call.Call.Args) == 1 {
+				// the length of a package-level table written once, by a literal of known size
+				if ld, isLd := call.Call.Args[0].(*ssa.UnOp); isLd && ld.Op == token.MUL {
+					if g, isG := ld.X.(*ssa.Global); isG {
+						if n, ok := literalLenOfGlobal(it.p, g); ok {
+							return ivI64(n, n), nil
+						}
+					}
+				}
+				return ivI64(0, 1<<31), nil
 			}
 		}
 	}
@@ -1146,13 +1189,32 @@ func c08Intervals(c *Ctx, p *Prog, fn *ssa.Function) {
 	classes = append(classes, class{fmt.Sprintf("n≥%d", T+2), big.NewInt(T + 2), hi0})
 
 	// the jitter call and its constant
-	jcall := c.UniqueCall("C08.I", p, fn, false, ModPath+"/agent/utils.addJitter")
-	if jcall == nil {
+	// one call, or one per branch (`return addJitter(cap, j)` / `return addJitter(1<<n*base, j)`): all
+	// with the same constant fraction
+	jcalls := Calls(fn, ModPath+"/agent/utils.addJitter")
+	if len(jcalls) == 0 {
+		c.UniqueCall("C08.I", p, fn, false, ModPath+"/agent/utils.addJitter")
 		return
 	}
+	jcall := jcalls[0]
+	c.OK("C08.I", "site:agent/utils.ExponentialBackoffDuration:call "+ModPath+"/agent/utils.addJitter", p, jcall.Pos(), fmt.Sprintf("%d jitter call(s), on alternative paths", len(jcalls)))
 	jv, okj := it0.constIVOf(Args(CallOf(jcall))[1])
+	for _, jc := range jcalls[1:] {
+		v2, ok2 := it0.constIVOf(Args(CallOf(jc))[1])
+		if !ok2 || !okj || v2.kind != jv.kind || v2.flo != jv.flo || v2.fhi != jv.fhi {
+			okj = false
+		}
+		for _, other := range jcalls {
+			if other != jc {
+				tgt := other
+				if h, _ := (&Walk{Target: func(i ssa.Instruction) bool { return i == tgt }, Local: true}).FromInstr(jc); h != nil {
+					okj = false // jitter applied twice on one path
+				}
+			}
+		}
+	}
 	if !okj || jv.kind != 'f' {
-		c.Unk("C08.I", "jitter-constant", p, jcall.Pos(), "the jitter fraction passed to addJitter is not a constant")
+		c.Unk("C08.I", "jitter-constant", p, jcall.Pos(), "the jitter fraction passed to addJitter is not one constant (or jitter is applied twice on a path)")
 		return
 	}
 	j := jv.fhi
@@ -1168,7 +1230,24 @@ func c08Intervals(c *Ctx, p *Prog, fn *ssa.Function) {
 			continue
 		}
 		c.Check("C08.I", cl.name+":no-overflow", p, fn.Pos(), len(it.issues) == 0, "shift and multiplications stay inside the 64-bit range", fmt.Sprint(it.issues))
-		tgt, okT := it.lastValsTop[Args(CallOf(jcall))[0]]
+		var tgt iv
+		okT := false
+		for _, jc := range jcalls {
+			if !it.liveTop[jc.Block()] {
+				continue
+			}
+			a0 := Args(CallOf(jc))[0]
+			tv, has := it.lastValsTop[a0]
+			if !has {
+				if cv, isC := it.constIVOf(a0); isC {
+					tv, has = cv, true
+				}
+			}
+			if has {
+				tgt = tgt.join(tv)
+				okT = true
+			}
+		}
 		if !okT || tgt.kind != 'i' || tgt.ilo.Cmp(tgt.ihi) != 0 {
 			c.Bad("C08.I", cl.name+":target", p, fn.Pos(), fmt.Sprintf("the un-jittered target delay is not a single value in this class: %v", tgt))
 			targets = append(targets, nil)
@@ -1520,6 +1599,28 @@ func c08ErrorClassification(c *Ctx, p *Prog) {
 // refineEdge narrows the interval a of value e on the control-flow edge
 // pred→blk when pred ends in `if e <op> c` (or `c <op> e`) with c evaluable.
 func (it *interp) refineEdge(a iv, e ssa.Value, pred, blk *ssa.BasicBlock, depth int) iv {
+	// comparisons of e further up that every path to this edge has passed with one outcome
+	// (if v < 0 || v >= n { … }: the second test's edge also knows the first one failed)
+	if depth < 3 {
+		for d := pred.Idom(); d != nil; d = d.Idom() {
+			if len(d.Succs) != 2 || d.Succs[0] == d.Succs[1] {
+				continue
+			}
+			var via *ssa.BasicBlock
+			for _, s := range d.Succs {
+				if s == pred || s.Dominates(pred) {
+					if via != nil {
+						via = nil
+						break
+					}
+					via = s
+				}
+			}
+			if via != nil && len(via.Preds) == 1 {
+				a = it.refineEdge(a, e, d, via, 3)
+			}
+		}
+	}
 	if len(pred.Instrs) == 0 || len(pred.Succs) != 2 || pred.Succs[0] == pred.Succs[1] {
 		return a
 	}
@@ -1606,4 +1707,31 @@ func (it *interp) refineEdge(a iv, e ssa.Value, pred, blk *ssa.BasicBlock, depth
 		return a
 	}
 	return ivInt(lo, hi)
+}
+
+// literalLenOfGlobal: the package-level slice/array variable is stored once, by its package's
+// initialiser, from a composite literal of n elements, and never re-sliced or replaced.
+func literalLenOfGlobal(p *Prog, g *ssa.Global) (int64, bool) {
+	var n int64 = -1
+	ok := true
+	for _, fn := range p.AllFuncs {
+		EachInstrRaw(fn, func(i ssa.Instruction) {
+			st, isSt := i.(*ssa.Store)
+			if !isSt || st.Addr != ssa.Value(g) {
+				return
+			}
+			if fn.Name() != "init" || fn.Pkg != g.Pkg || n >= 0 {
+				ok = false
+				return
+			}
+			if sl, isSl := st.Val.(*ssa.Slice); isSl && sl.Low == nil && sl.High == nil {
+				if at, isA := derefT(sl.X.Type()).Underlying().(*types.Array); isA {
+					n = at.Len()
+					return
+				}
+			}
+			ok = false
+		})
+	}
+	return n, ok && n >= 0
 }
